@@ -82,7 +82,7 @@ class _Builder(object):
 
 
 def gen_graph(rnd, max_classes=4, max_instances=6, max_props=4, bnode_instance_rate=0.2,
-              multi_class_rate=0.2, out_of_domain_rate=0.0, shuffle=True, kinds=None, tau=RDF_TYPE):
+              multi_class_rate=0.2, meta_class_rate=0.08, out_of_domain_rate=0.0, shuffle=True, kinds=None, tau=RDF_TYPE):
     """One random graph.  out_of_domain_rate: probability of planting one feature that
     SHACL serialisation rejects (a blank-node class or a non-http(s) predicate)."""
     b = _Builder(rnd)
@@ -119,6 +119,11 @@ def gen_graph(rnd, max_classes=4, max_instances=6, max_props=4, bnode_instance_r
     for n, cs in node_classes.items():
         for c in cs:
             b.add(n, iri(tau), c)
+    # a class that is itself an instance (of a metaclass): gives inverse arcs on the instantiation property
+    if rnd.random() < meta_class_rate:
+        cand = [c for c in classes if c[0] == "iri"]
+        if cand:
+            b.add(rnd.choice(cand), iri(tau), iri(NS + "Meta"))
     n_props = rnd.randint(1, max_props)
     props = []
     for i in range(n_props):
